@@ -89,6 +89,7 @@ def main(tier):
     chk.trusted = ["rustc MIR", "Rust lexer for PS-1", "external crates (sapling-crypto, orchard, "
                    "prost) do not panic", "reviewed internal-invariant sites listed in rules/c05.py"]
     chk.rule("PS-1", "sibling pool code is a consistent renaming", floor=150)
+    chk.rule("PS-2", "Ironwood code equals its Orchard sibling up to the pool renaming", floor=60)
     chk.rule("PS-3", "pool-tagged arguments bind the same pool's parameters", floor=5)
     chk.rule("GUARD", "continuity / consistency rejections cannot be bypassed", floor=10)
     chk.rule("ORDER", "position bookkeeping runs once per transaction after find_received", floor=2)
@@ -99,6 +100,7 @@ def main(tier):
     chk.rule("control", "positive controls", floor=1)
 
     ps_rules.ps1(chk, FILES)
+    ps_rules.ps2(chk, FILES)
     w = zf.World(extract.facts_dir("all"))
 
     def scan_scope(f):
